@@ -1,5 +1,6 @@
 import BertE.Lemmas.C02
 import BertE.Lemmas.C02Content
+import BertE.Lemmas.C02RecDemo
 import BertE.Props.C01
 import BertE.Gen.PushFlags
 import BertE.Drv.C02
@@ -373,5 +374,441 @@ example :
     (applyOps p.g noRej s.remote p.ops).get (.dest (.dev 5 (some 1))) = some 4 ∧
     (applyOps p'.g noRej s'.remote p'.ops).get (.dest (.dev 5 (some 1))) = some 4 ∧
     [0, 1, 2, 3].all (fun a => p'.g.le a 4 == p.g.le a 4) = true := by decide
+
+end BertE.C02
+
+/-! ### Work package QValidate: after an interrupted `add_to_queue`, validated or nothing
+
+The queue-mode clauses above (`C02_all_or_none_queues`, `C02_prefix_safe*`) assume the queue invariant. An
+interruption of `add_to_queue` (crash between its pushes, refs refused in its non-atomic final push) leaves `q/*`
+refs for which that invariant does not hold. What protects the destinations then is `QueueCollection.validate()`
+at the next evaluation (`Model/QValidate.lean`, soundness in `Lemmas/QValidate*.lean`, `C01_queue_validated`).
+No hypothesis about `q/*` refs below. -/
+namespace BertE.C02
+open BertE.Git BertE.Flow BertE.C01 BertE.QV
+
+/-- **Queue evaluation in any state: inclusion and all-or-none at every observable moment.** Whatever the `q/*`
+    refs are, at every interruption `k` of the evaluation and whatever the server refuses in each operation:
+    inclusion holds, and either no destination has moved, or the validation had passed and the queue commit of
+    EVERY selected pull request, on EVERY version on which the queue shows that pull request, is on that version's
+    destination. -/
+theorem C02_validated_all_or_none (s : Sys) (hs : s.WF) (hincl : s.Incl) (hc : CascadeOK s) (sel : List Nat)
+    (wgone : List (Dest × String)) (rej : Nat → Ref → Bool) (k : Nat) :
+    InclOn (evalQueues s sel wgone).g (observableAt s (evalQueues s sel wgone) rej k) ∧
+    (Unmoved s (observableAt s (evalQueues s sel wgone) rej k) ∨
+      (validated s = true ∧ QVLanded s sel (observableAt s (evalQueues s sel wgone) rej k))) := by
+  refine ⟨?_, ?_⟩
+  · unfold observableAt
+    apply applyOpsAt_incl rej _ 0
+    · rw [(qv_evalQueues_spec hs hincl hc sel wgone).1]; exact hincl
+    · intro op hop
+      exact qv_evalQueues_safe hs hincl hc sel wgone op (List.mem_of_mem_take hop)
+  · rcases (qv_evalQueues_oneShot hs hincl hc sel wgone).observable (evalQueues s sel wgone).g rej k s.remote
+      with h | ⟨hv, hf⟩
+    · exact Or.inl h
+    · exact Or.inr ⟨hv, hf.landed⟩
+
+/-- **C02, recovery guard in queue mode.** Take any well-formed state, any pull-request evaluation that reaches
+    `add_to_queue` (`prepare` handed over the clone `l4` and the pushes `pushW` made so far), interrupt it after ANY
+    number `k` of its operations with ANY refusals `rej i` in operation `i` - and let the NEXT queue evaluation run
+    on what is left (any selection, itself interrupted anywhere, with any refusals). Then: no destination had
+    moved in the interrupted job; the next evaluation does nothing when the validation reports an error; and in
+    every case inclusion holds, and either no destination moves or the validation had passed and every selected
+    pull request's queue commits are on their destinations. -/
+theorem C02_validated_or_nothing (s : Sys) (hs : s.WF) (hincl : s.Incl) (hc : CascadeOK s) (pr : PrInfo)
+    (sc dc : Commit) (hsc : s.remote.get (.other pr.src) = some sc) (orc : List Bool) (l4 : Loc) (pushW : List Op)
+    (hp : prepare s pr sc dc orc = .inr (l4, pushW)) (rej : Nat → Ref → Bool) (k : Nat)
+    (sel : List Nat) (wgone : List (Dest × String)) (rej' : Nat → Ref → Bool) (k' : Nat) :
+    Unmoved s (crashState s (enqueue s l4 pr (s.targets pr.dst) pushW) rej k).remote ∧
+    (validated (crashState s (enqueue s l4 pr (s.targets pr.dst) pushW) rej k) = false →
+      (evalQueues (crashState s (enqueue s l4 pr (s.targets pr.dst) pushW) rej k) sel wgone).ops = []) ∧
+    InclOn (evalQueues (crashState s (enqueue s l4 pr (s.targets pr.dst) pushW) rej k) sel wgone).g
+      (observableAt (crashState s (enqueue s l4 pr (s.targets pr.dst) pushW) rej k)
+        (evalQueues (crashState s (enqueue s l4 pr (s.targets pr.dst) pushW) rej k) sel wgone) rej' k') ∧
+    (Unmoved s (observableAt (crashState s (enqueue s l4 pr (s.targets pr.dst) pushW) rej k)
+        (evalQueues (crashState s (enqueue s l4 pr (s.targets pr.dst) pushW) rej k) sel wgone) rej' k') ∨
+     (validated (crashState s (enqueue s l4 pr (s.targets pr.dst) pushW) rej k) = true ∧
+      QVLanded (crashState s (enqueue s l4 pr (s.targets pr.dst) pushW) rej k) sel
+        (observableAt (crashState s (enqueue s l4 pr (s.targets pr.dst) pushW) rej k)
+          (evalQueues (crashState s (enqueue s l4 pr (s.targets pr.dst) pushW) rej k) sel wgone) rej' k'))) := by
+  obtain ⟨hwf, hi, hcs, hdest⟩ := qv_enqueue_crash_state hs hincl hc pr hsc orc hp (s.targets pr.dst) rej k
+  generalize crashState s (enqueue s l4 pr (s.targets pr.dst) pushW) rej k = s' at hwf hi hcs hdest
+  obtain ⟨h1, h2⟩ := C02_validated_all_or_none s' hwf hi hcs sel wgone rej' k'
+  refine ⟨hdest, (qv_evalQueues_spec hwf hi hcs sel wgone).2.2, h1, ?_⟩
+  rcases h2 with h | h
+  · exact Or.inl (fun d => (h d).trans (hdest d))
+  · exact Or.inr h
+
+/-- Non-vacuity and a limit of the guard. Pull request 1 (`feature/x`, commit 3) on development/4.3 (1) with
+    development/5.1 (2): `add_to_queue` pushes `q/4.3 q/5.1 q/w/1/4.3/… q/w/1/5.1/…` in ONE non-atomic push. When the
+    server refuses BOTH `q/4.3` and `q/w/1/4.3/feature/x` in that push (the property text speaks of any SINGLE
+    branch), what is left looks like a pull request that targets development/5.1 only: the validation passes and
+    the next evaluation merges it - inclusion holds, the queue commit shown is landed, but the change is then on
+    development/5.1 and not on development/4.3 until the pull request is evaluated again (`close_queued_pull_request`
+    sees the partial merge and wakes it up). `validate()` cannot see a target on which nothing at all was written. -/
+def qvPr : PrInfo := ⟨1, "feature/x", .dev 4 (some 3)⟩
+def qvS : Sys := ⟨⟨[[0], [0, 1], [0, 1, 2], [0, 1, 3]]⟩,
+   [(.dest (.dev 4 (some 3)), 1), (.dest (.dev 5 (some 1)), 2), (.other "feature/x", 3)],
+   [(4, some 3), (5, some 1)], [], [], true, false⟩
+def qvRej : Nat → Ref → Bool :=
+  fun i r => i == 3 && (r == .q (.dev 4 (some 3)) || r == .qw 1 (.dev 4 (some 3)) "feature/x")
+def qvAfter : Sys := crashState qvS (planPr qvS qvPr .final [] []) qvRej 4
+
+theorem C02_validated_double_refusal_counterexample :
+    (planPr qvS qvPr .final [] []).outcome = "Queued" ∧ (planPr qvS qvPr .final [] []).ops.length = 4 ∧
+    validated qvAfter = true ∧
+    (observableAt qvAfter (evalQueues qvAfter [1] []) (fun _ => noRej) 1).get (.dest (.dev 5 (some 1))) = some 4 ∧
+    (observableAt qvAfter (evalQueues qvAfter [1] []) (fun _ => noRej) 1).get (.dest (.dev 4 (some 3))) = some 1 ∧
+    qvAfter.g.le 3 4 = true ∧ qvAfter.g.le 3 1 = false := by decide
+
+/-- with a single refused ref of that push (each of the four in turn) the validation fails -/
+example : ∀ r ∈ [Ref.q (.dev 4 (some 3)), .q (.dev 5 (some 1)), .qw 1 (.dev 4 (some 3)) "feature/x",
+      .qw 1 (.dev 5 (some 1)) "feature/x"],
+    validated (crashState qvS (planPr qvS qvPr .final [] []) (fun i x => i == 3 && x == r) 4) = false := by decide
+
+end BertE.C02
+
+/-! ## Recovery beyond no-queue mode (work package `Recovery`)
+
+`C02_recovery_skipqueue`: direct merge with queues enabled (`skip_queue_when_not_needed`), the plan deleting the
+q/ branches between the push of the integration branches and the publishing push.
+`C02_recovery_queue_merge`, `C02_recovery_cleanup`: the jobs whose plan is one atomic push.
+`C02_recovery_enqueue_partial`: crash / refusals inside `add_to_queue`.
+Lemmas: `Lemmas/C02RecSkip.lean`, `Lemmas/C02RecQueue.lean`, `Lemmas/C02RecEnqueue.lean`. -/
+namespace BertE.C02
+open BertE.Git BertE.Flow BertE.C01
+
+/-- **C02, recovery of a direct merge with queues enabled** (`skip_queue_when_not_needed`: the pull request is not
+    queued and `is_needed` answers no - this is what `hU`, an evaluation that ends with an atomic pruning push,
+    means when the pull request is not queued, see `C02_skipqueue_means`). The plan is: push of the integration
+    branches (not atomic), deletion of every q/ branch (one operation each), ONE atomic pruning push. The job dies
+    anywhere before that push (`k < number of operations`), the server having refused any refs in the operations
+    attempted (so: any subset of the integration branches pushed, any subset of the q/ branches deleted); the same
+    event is delivered to a fresh Bert-E on the interrupted state, git's content merges answer anything (`orc'`),
+    and this second run reaches its publishing push (`hR`; this is the hypothesis that excludes the recorded
+    finding `recovery/history-mismatch-after-partial-w-push`, where a gate - an input of the model - stops every
+    re-delivery). Then every target ends with the same content as in the uninterrupted run.
+    The statement does not use `huq`/`hsk`: it holds in every mode and contains `C02_recovery_direct_partial`. -/
+theorem C02_recovery_skipqueue (s : Sys) (hs : s.WF) (_huq : s.useQueue = true) (_hsk : s.skipQueue = true)
+    (pr : PrInfo) (hnaq : alreadyQueued s pr = false)
+    (orc : List Bool) (sel : List Nat) (sc : Commit) (hsc : s.remote.get (.other pr.src) = some sc)
+    (locU : RefMap) (hU : (planPr s pr .final orc sel).ops.getLast? = some (.pushAll locU true))
+    (rej : Nat → Ref → Bool) (k : Nat) (hk : k < (planPr s pr .final orc sel).ops.length)
+    (orc' : List Bool) (sel' : List Nat) (locR : RefMap)
+    (hR : (planPr (interrupted s (planPr s pr .final orc sel) rej k) pr .final orc' sel').ops.getLast? =
+      some (.pushAll locR true)) :
+    ∀ d ∈ s.targets pr.dst,
+      SameContent s.g.size (planPr s pr .final orc sel).g locU
+        (planPr (interrupted s (planPr s pr .final orc sel) rej k) pr .final orc' sel').g locR d :=
+  rec_direct_recovery hs pr hnaq orc sel hsc hU rej hk orc' sel' hR
+
+/-- with queues enabled, an evaluation of a pull request that is not queued and ends with an atomic pruning push is
+    the skipped-queue direct merge: `skip_queue_when_not_needed` is on and nothing is queued; its operations are
+    the push of the integration branches, the deletion of the q/ branches of the snapshot, the publishing push -/
+theorem C02_skipqueue_means (s : Sys) (hs : s.WF) (huq : s.useQueue = true) (pr : PrInfo)
+    (hnaq : alreadyQueued s pr = false) (orc : List Bool) (sel : List Nat) (sc : Commit)
+    (hsc : s.remote.get (.other pr.src) = some sc) (loc : RefMap)
+    (hU : (planPr s pr .final orc sel).ops.getLast? = some (.pushAll loc true)) :
+    s.skipQueue = true ∧ s.queue = [] ∧
+    ∃ (l4 : Loc) (qs : List Ref), (∀ r ∈ qs, ∃ d, r = Ref.q d) ∧
+      (planPr s pr .final orc sel).ops =
+        pushWOps l4 pr ((s.targets pr.dst).drop 1) ++ qs.map Op.delete ++ [Op.pushAll loc true] := by
+  obtain ⟨h1, h2⟩ := rec_direct_needs_skip huq pr hnaq orc sel hU
+  obtain ⟨l4, qs, hr⟩ := rec_planPr_run hs pr hnaq orc sel hsc hU
+  exact ⟨h1, h2, l4, qs, hr.qonly, hr.ops⟩
+
+/-- non-vacuity of `C02_recovery_skipqueue`: `RecDemo.k4` (queues on, skipping on, q/4.3 and q/5.1 left behind by an
+    earlier queue merge, `feature/x` up to date with development/4.3). The plan has four operations; the job dies
+    after three of them, the server having refused the deletion of q/5.1: w/5.1/feature/x is pushed, q/4.3 is
+    deleted, q/5.1 still there, no destination moved. The event delivered again ends with its publishing push;
+    both targets contain the same commits of the snapshot (0..7) as in the uninterrupted run. -/
+example :
+    let s := RecDemo.k4
+    let pr := RecDemo.prX
+    let p := planPr s pr .final [] []
+    let rej : Nat → Ref → Bool := fun i r => i == 1 && r == .q RecDemo.d51
+    let s' := interrupted s p rej 3
+    let p' := planPr s' pr .final [] []
+    s.WF ∧ s.useQueue = true ∧ s.skipQueue = true ∧ alreadyQueued s pr = false ∧
+    s.remote.get (.other pr.src) = some 7 ∧
+    p.ops.map Op.atomic = [false, false, false, true] ∧ 3 < p.ops.length ∧
+    p.ops.getLast?.map Op.atomic = some true ∧ p'.ops.getLast?.map Op.atomic = some true ∧
+    s'.remote.get (.w RecDemo.d51 "feature/x") = some 8 ∧ s'.remote.get (.q RecDemo.d43) = none ∧
+    s'.remote.get (.q RecDemo.d51) = some 6 ∧ s'.remote.get (.dest RecDemo.d51) = some 6 ∧
+    (applyOps p.g noRej s.remote p.ops).get (.dest RecDemo.d51) = some 8 ∧
+    (applyOps p'.g noRej s'.remote p'.ops).get (.dest RecDemo.d51) = some 8 ∧
+    (applyOps p'.g noRej s'.remote p'.ops).get (.q RecDemo.d51) = none :=
+  ⟨RecDemo.k4_WF, by decide, by decide, by decide, by decide, by decide, by decide, by decide, by decide,
+   by decide, by decide, by decide, by decide, by decide, by decide, by decide⟩
+
+/-- **C02, recovery of a queue merge** (`handle_merge_queues`: commit event on a queue tip, force merge, evaluation
+    of a pull request that is already queued). The plan is ONE atomic pruning push (or nothing). Interrupted at any
+    prefix, anything refused by the server:
+    * either the push went through: the remote IS what the uninterrupted job leaves (every destination moved, the
+      merged q/w/ and w/ refs pruned) - nothing to recover, and the event delivered again (same selection, the
+      merged pull requests having left the queue) plans nothing;
+    * or nothing at all happened: the remote is the snapshot (no destination moved, every q/ and q/w/ ref in
+      place), the interrupted state IS the state before, the evaluation delivered again with the same selection
+      has the same plan and, uninterrupted, leaves the same remote as the uninterrupted run. -/
+theorem C02_recovery_queue_merge (s : Sys) (sel : List Nat) (rej : Nat → Ref → Bool) (k : Nat) :
+    let p := planQueues s sel
+    let s' := interrupted s p rej k
+    let U := applyOps p.g noRej s.remote p.ops
+    (s'.remote = U ∧ (planQueues { s' with queue := p.queue } sel).ops = []) ∨
+    (s'.remote = s.remote ∧ s' = s ∧ planQueues s' sel = p ∧
+      applyOps (planQueues s' sel).g noRej s'.remote (planQueues s' sel).ops = U) := by
+  intro p s' U
+  rcases rec_single_observable (s := s) (rec_planQueues_single s sel) rej k with h | h
+  · right
+    have hself : s' = s := rec_interrupted_self (planQueues_g s sel) h
+    refine ⟨h, hself, by rw [hself], by rw [hself]⟩
+  · left
+    exact ⟨h, rec_planQueues_again s sel _ _⟩
+
+/-- non-vacuity of `C02_recovery_queue_merge`: `RecDemo.q4` (two pull requests queued on development/4.3 and 5.1),
+    the merge of the first one. Refusing development/5.1 in the push leaves the remote untouched (second
+    alternative); without refusal both destinations are on the queue commits of pull request 1, its q/w/ refs are
+    gone, pull request 2 is still queued (first alternative). -/
+example :
+    let s := RecDemo.q4
+    let p := planQueues s [1]
+    let refused := interrupted s p (fun _ r => r == .dest RecDemo.d51) 1
+    let landed := interrupted s p (fun _ _ => false) 1
+    s.queue.map (·.pr) = [1, 2] ∧ p.ops.map Op.atomic = [true] ∧
+    refused.remote = s.remote ∧ landed.remote ≠ s.remote ∧
+    landed.remote.get (.dest RecDemo.d43) = s.remote.get (.qw 1 RecDemo.d43 "feature/y") ∧
+    landed.remote.get (.dest RecDemo.d51) = s.remote.get (.qw 1 RecDemo.d51 "feature/y") ∧
+    landed.remote.get (.qw 1 RecDemo.d43 "feature/y") = none ∧
+    (landed.remote.get (.qw 2 RecDemo.d43 "feature/x")).isSome = true ∧ p.queue.map (·.pr) = [2] := by decide
+
+/-- **C02, recovery of the clean-up jobs** (declined pull request, `reset` / `force_reset`, rebuild / delete
+    queues). The plan is ONE atomic pruning push (or nothing). Interrupted at any prefix, anything refused:
+    * either the push went through: the remote IS what the uninterrupted job leaves, and the event delivered
+      again changes nothing (it plans nothing, or a push of exactly what the remote has);
+    * or the job was not applied at all: the interrupted state IS the state before, the event delivered again
+      has the same plan and, uninterrupted, leaves the same remote as the uninterrupted run. -/
+theorem C02_recovery_cleanup (s : Sys) (ev : Event)
+    (hev : (∃ pr cd, ev = .evalDeclined pr cd) ∨ (∃ pr, ev = .reset pr) ∨ ev = .dropQueues)
+    (rej : Nat → Ref → Bool) (k : Nat) :
+    let p := plan s ev
+    let s' := interrupted s p rej k
+    let U := applyOps p.g noRej s.remote p.ops
+    (s'.remote = U ∧
+      applyOps (plan { s' with queue := p.queue } ev).g noRej s'.remote (plan { s' with queue := p.queue } ev).ops = U) ∨
+    (s'.remote = s.remote ∧ s' = s ∧ plan s' ev = p ∧
+      applyOps (plan s' ev).g noRej s'.remote (plan s' ev).ops = U) := by
+  intro p s' U
+  obtain ⟨hsingle, hg⟩ := rec_cleanup_single s ev hev
+  rcases rec_single_observable (s := s) hsingle rej k with h | h
+  · right
+    have hself : s' = s := rec_interrupted_self hg h
+    refine ⟨h, hself, by rw [hself], by rw [hself]⟩
+  · left
+    refine ⟨h, ?_⟩
+    have hs' : ({ s' with queue := p.queue } : Sys) = { s with remote := rec_done s (plan s ev), queue := p.queue } := by
+      show ({ interrupted s p rej k with queue := p.queue } : Sys) = _
+      unfold interrupted
+      rw [h, hg]
+    have hr : s'.remote = rec_done s (plan s ev) := h
+    rw [hs', hr]
+    exact rec_cleanup_again s ev hev p.queue
+
+/-- non-vacuity of `C02_recovery_cleanup`: on `RecDemo.q4` the rebuild-queues job is one atomic push that removes
+    the six q/ and q/w/ refs; refused on one of them it removes none (the state is the one before); delivered again
+    after it went through it plans nothing. A `reset` of pull request 1 is one atomic push removing w/5.1/feature/y. -/
+example :
+    let s := RecDemo.q4
+    let p := plan s .dropQueues
+    let refused := interrupted s p (fun _ r => r == .q RecDemo.d51) 1
+    let landed := interrupted s p (fun _ _ => false) 1
+    p.ops.map Op.atomic = [true] ∧ (allQRefs s.remote).length = 6 ∧ refused.remote = s.remote ∧
+    allQRefs landed.remote = [] ∧ (plan { landed with queue := p.queue } .dropQueues).ops = [] ∧
+    (plan s (.reset ⟨1, "feature/y", RecDemo.d43⟩)).ops.map Op.atomic = [true] ∧
+    (s.remote.get (.w RecDemo.d51 "feature/y")).isSome = true ∧
+    (applyOps s.g noRej s.remote (plan s (.reset ⟨1, "feature/y", RecDemo.d43⟩)).ops).get (.w RecDemo.d51 "feature/y") = none := by
+  decide
+
+/-! ### crash / refusals inside `add_to_queue`
+
+Full statement (NOT proved in this generality): for every queue-mode evaluation that answers Queued, every
+interruption `k` and every refusal `rej` of its operations (push of the integration branches, one push per queue
+branch created, ONE non-atomic push of the q/ branches and of the q/w/ refs of the pull request), re-delivery to a
+fresh Bert-E - which either finds the pull request queued and the queues coherent, or answers QueueOutOfOrder /
+IncoherentQueues, after which the rebuild-queues job drops every q/ and q/w/ ref and re-submits the previously
+queued pull requests, and the event is delivered again - followed by the merge of the whole queue, ends with the
+same content on every destination branch as the uninterrupted run followed by the merge of the whole queue.
+
+What is proved (`_partial`):
+* `C02_recovery_enqueue_queued` - case (a): the pull request is found queued as the uninterrupted run queued it
+  (every q/w/ ref as in the uninterrupted remote): every queue merge offers the same destination tips.
+* `C02_recovery_enqueue_partial` - case (b): the evaluation delivered again on a state `sR` that is `rec_Rebuilt`
+  (same destinations, source and cascade as the snapshot; integration branches as the interrupted job left them -
+  any subset pushed; pull request not queued; rebuilt queue branches with the CONTENT of the old ones) answers
+  Queued with queue commits that have the content of the uninterrupted ones, hence the merge of a selection that
+  contains the pull request ends with the same content on each of its targets.
+* `C02_recovery_enqueue_first_partial` - case (b) when nothing else is queued on the targets: `rec_Rebuilt` is then
+  established by the rebuild-queues job alone, and the whole recovery is model code.
+Hypotheses beyond the property text: (1) the validation that answers QueueOutOfOrder is not in the model
+(work package `QValidate`): WHICH of (a) / (b) the fresh Bert-E takes is not proved; (2) the re-delivered evaluation
+gets through its gates and merges again (`hR`: inputs of the model; the recorded finding
+`recovery/history-mismatch-after-partial-w-push` is a case where a gate does not); (3) for a non-empty queue, that
+the re-submitted pull requests rebuild queue branches of the same content is the hypothesis `rec_Rebuilt.q` (true
+when nobody pushed to their source or integration branches since they were queued; not proved). -/
+
+/-- **C02, recovery of `add_to_queue`, the pull request found queued** (case (a)). When, in the interrupted state,
+    every q/w/ ref is what the uninterrupted job leaves (the job died after its last push, or the server only
+    refused integration or queue branches), then - the queue bookkeeping being that of the uninterrupted job - every
+    queue merge plans nothing in both states or offers the same tip for every destination branch. -/
+theorem C02_recovery_enqueue_queued (s : Sys) (hs : s.WF) (hqt : rec_QTip s.g s.remote) (pr : PrInfo)
+    (hnaq : alreadyQueued s pr = false) (orc : List Bool) (sel : List Nat) (sc : Commit)
+    (hsc : s.remote.get (.other pr.src) = some sc) (hU : (planPr s pr .final orc sel).outcome = "Queued")
+    (rej : Nat → Ref → Bool) (k : Nat)
+    (hall : ∀ i d n, (observableAt s (planPr s pr .final orc sel) rej k).get (.qw i d n) =
+      (s.after (planPr s pr .final orc sel)).remote.get (.qw i d n)) (selQ : List Nat) :
+    let SU := s.after (planPr s pr .final orc sel)
+    let S' : Sys := { interrupted s (planPr s pr .final orc sel) rej k with queue := (planPr s pr .final orc sel).queue }
+    ((planQueues SU selQ).ops = [] ∧ (planQueues S' selQ).ops = []) ∨
+    ∃ loc loc', (planQueues SU selQ).ops = [Op.pushAll loc true] ∧ (planQueues S' selQ).ops = [Op.pushAll loc' true] ∧
+      ∀ d, loc.get (.dest d) = loc'.get (.dest d) := by
+  intro SU S'
+  obtain ⟨l4, l8, hrU⟩ := rec_planPr_qrun hs hqt pr hnaq orc sel hsc hU
+  have hdest : ∀ (rej' : Nat → Ref → Bool) k' d,
+      (observableAt s (planPr s pr .final orc sel) rej' k').get (.dest d) = s.remote.get (.dest d) := by
+    intro rej' k' d
+    rcases rec_interruptedQ hrU rej' k' (.dest d) with h | ⟨_, _, he, _⟩ | ⟨_, he⟩ | ⟨_, he⟩
+    · exact h
+    · cases he
+    · cases he
+    · cases he
+  have hSU : SU.remote = observableAt s (planPr s pr .final orc sel) (fun _ => noRej)
+      (planPr s pr .final orc sel).ops.length := by
+    show applyOps _ noRej s.remote _ = _
+    unfold observableAt
+    rw [List.take_length, applyOpsAt_const]
+  apply rec_planQueues_congr SU S' rfl
+  refine ⟨?_, ?_⟩
+  · intro d
+    show SU.remote.get _ = (observableAt s (planPr s pr .final orc sel) rej k).get _
+    rw [hSU, hdest, hdest]
+  · intro i d n
+    exact (hall i d n).symm
+
+/-- **C02, recovery of `add_to_queue` after the queue reset** (case (b); partial, see above). The evaluation that
+    should have queued the pull request is interrupted anywhere, anything refused; the queues are reset and rebuilt
+    (`sR`, `rec_Rebuilt`); the event is delivered again, git's content merges answer anything, and this run answers
+    Queued (`hR`). Then the merge of any selection that contains the pull request, in the uninterrupted run and in
+    the recovered run, ends with the same content on every target of the pull request. -/
+theorem C02_recovery_enqueue_partial (s : Sys) (hs : s.WF) (hqt : rec_QTip s.g s.remote) (huq : s.useQueue = true)
+    (pr : PrInfo) (hnaq : alreadyQueued s pr = false) (orc : List Bool) (sel : List Nat) (sc : Commit)
+    (hsc : s.remote.get (.other pr.src) = some sc) (hU : (planPr s pr .final orc sel).outcome = "Queued")
+    (rej : Nat → Ref → Bool) (k : Nat) (sR : Sys)
+    (hreb : rec_Rebuilt s pr (interrupted s (planPr s pr .final orc sel) rej k) sR)
+    (orc' : List Bool) (sel' : List Nat) (hR : (planPr sR pr .final orc' sel').outcome = "Queued")
+    (selU selR : List Nat) (hselU : selU.contains pr.id = true) (hselR : selR.contains pr.id = true) :
+    ∃ locU locR,
+      (planQueues (s.after (planPr s pr .final orc sel)) selU).ops = [Op.pushAll locU true] ∧
+      (planQueues (sR.after (planPr sR pr .final orc' sel')) selR).ops = [Op.pushAll locR true] ∧
+      ∀ d ∈ s.targets pr.dst,
+        SameContent s.g.size (planPr s pr .final orc sel).g locU (planPr sR pr .final orc' sel').g locR d := by
+  obtain ⟨l4, l8, l4R, l8R, hrU, hrR, hcont⟩ :=
+    rec_enqueue_recovery hs hqt pr hnaq orc sel hsc hU rej k hreb orc' sel' hR
+  have hT : sR.targets pr.dst = s.targets pr.dst := rec_targets_devs hreb.devs pr.dst
+  have hfresh : ∀ d ∈ s.targets pr.dst, s.remote.get (.qw pr.id d pr.src) = none := by
+    intro d hd
+    unfold alreadyQueued at hnaq
+    rw [huq, Bool.true_and, List.any_eq_false] at hnaq
+    have := hnaq d hd
+    unfold RefMap.has at this
+    cases hg : s.remote.get (.qw pr.id d pr.src) with
+    | none => rfl
+    | some c => rw [hg] at this; simp at this
+  have hfreshR : ∀ d ∈ sR.targets pr.dst, sR.remote.get (.qw pr.id d pr.src) = none := by
+    intro d hd
+    rw [hT] at hd
+    exact hreb.qwfresh d hd
+  have hnd := pairwise_before_nodup (targets_pairwise hs.sorted pr.dst)
+  -- the uninterrupted run
+  have hexU : ∀ d ∈ s.targets pr.dst, ∃ c,
+      (s.after (planPr s pr .final orc sel)).remote.get (.qw pr.id d pr.src) = some c := by
+    intro d hd
+    obtain ⟨nU, _, hnU, _, _⟩ := hcont d hd
+    exact ⟨nU, rec_after_qw hs hrU hfresh hd hnU⟩
+  obtain ⟨locU, hopsU, hlocU⟩ := rec_planQueues_newest (s.after (planPr s pr .final orc sel)) s.queue
+    ⟨pr.id, pr.src, s.targets pr.dst⟩ hrU.queue selU hselU hnd hexU
+  -- the recovered run
+  have hexR : ∀ d ∈ s.targets pr.dst, ∃ c,
+      (sR.after (planPr sR pr .final orc' sel')).remote.get (.qw pr.id d pr.src) = some c := by
+    intro d hd
+    obtain ⟨_, nR, _, hnR, _⟩ := hcont d hd
+    exact ⟨nR, rec_after_qw hreb.wf hrR hfreshR (by rw [hT]; exact hd) hnR⟩
+  have hqR : (sR.after (planPr sR pr .final orc' sel')).queue = sR.queue ++ [⟨pr.id, pr.src, s.targets pr.dst⟩] := by
+    have := hrR.queue
+    rw [hT] at this
+    exact this
+  obtain ⟨locR, hopsR, hlocR⟩ := rec_planQueues_newest (sR.after (planPr sR pr .final orc' sel')) sR.queue
+    ⟨pr.id, pr.src, s.targets pr.dst⟩ hqR selR hselR hnd hexR
+  refine ⟨locU, locR, hopsU, hopsR, ?_⟩
+  intro d hd
+  obtain ⟨nU, nR, hnU, hnR, hc⟩ := hcont d hd
+  refine ⟨nU, nR, ?_, ?_, ?_⟩
+  · rw [hlocU d hd]; exact rec_after_qw hs hrU hfresh hd hnU
+  · rw [hlocR d hd]; exact rec_after_qw hreb.wf hrR hfreshR (by rw [hT]; exact hd) hnR
+  · intro a ha
+    rw [hrU.pg, hrR.pg]
+    exact hc a ha
+
+/-- **C02, recovery of `add_to_queue` when nothing else is queued** (case (b), the reset included; partial, see
+    above). `rec_QEmpty`: every queue branch of a target has the content of its destination branch. The evaluation
+    that should have queued the pull request is interrupted anywhere, anything refused; the rebuild-queues job runs
+    (`step _ .dropQueues`: every q/ and q/w/ ref goes); the event is delivered again and answers Queued. Then the
+    merge of the queue ends, on every target, with the same content as the uninterrupted run followed by the merge. -/
+theorem C02_recovery_enqueue_first_partial (s : Sys) (hs : s.WF) (hqt : rec_QTip s.g s.remote) (huq : s.useQueue = true)
+    (pr : PrInfo) (hnaq : alreadyQueued s pr = false) (orc : List Bool) (sel : List Nat) (sc : Commit)
+    (hsc : s.remote.get (.other pr.src) = some sc) (hU : (planPr s pr .final orc sel).outcome = "Queued")
+    (hempty : rec_QEmpty s pr) (rej : Nat → Ref → Bool) (k : Nat)
+    (orc' : List Bool) (sel' : List Nat)
+    (hR : (planPr (step (interrupted s (planPr s pr .final orc sel) rej k) .dropQueues).1 pr .final orc' sel').outcome
+      = "Queued")
+    (selU selR : List Nat) (hselU : selU.contains pr.id = true) (hselR : selR.contains pr.id = true) :
+    let sR := (step (interrupted s (planPr s pr .final orc sel) rej k) .dropQueues).1
+    ∃ locU locR,
+      (planQueues (s.after (planPr s pr .final orc sel)) selU).ops = [Op.pushAll locU true] ∧
+      (planQueues (sR.after (planPr sR pr .final orc' sel')) selR).ops = [Op.pushAll locR true] ∧
+      ∀ d ∈ s.targets pr.dst,
+        SameContent s.g.size (planPr s pr .final orc sel).g locU (planPr sR pr .final orc' sel').g locR d := by
+  intro sR
+  have hsR : sR = rec_dropped (interrupted s (planPr s pr .final orc sel) rej k) := rec_dropped_is_step _
+  have hreb := rec_rebuilt_first hs hqt pr hnaq orc sel hsc hU hempty rej k
+  rw [← hsR] at hreb
+  exact C02_recovery_enqueue_partial s hs hqt huq pr hnaq orc sel sc hsc hU rej k sR hreb orc' sel' hR
+    selU selR hselU hselR
+
+/-- non-vacuity of the three theorems on `add_to_queue`: `RecDemo.q2` (queue mode, nothing queued, no queue branch
+    yet), pull request 1 = `feature/y` on development/4.3 and 5.1. Its evaluation answers Queued with four
+    operations (push of w/5.1/feature/y, creation of q/4.3 and of q/5.1, the final non-atomic push). The server
+    refuses q/w/1/5.1/feature/y in the final push: q/4.3, q/5.1 and q/w/1/4.3/feature/y are written, the queue is
+    incoherent. The rebuild-queues job drops the three refs; the evaluation delivered again answers Queued with new
+    queue commits (8, 9 instead of 6, 7); the merge of the queue moves both targets to them; they contain the same
+    commits of the snapshot (0..4) as the uninterrupted ones. With nothing refused the interrupted remote is the
+    uninterrupted one (hypothesis of `C02_recovery_enqueue_queued`). -/
+example :
+    let s := RecDemo.q2
+    let pr := RecDemo.prY
+    let p := planPr s pr .final [] []
+    let rej : Nat → Ref → Bool := fun i r => i == 3 && r == .qw 1 RecDemo.d51 "feature/y"
+    let s' := interrupted s p rej 4
+    let sR := (step s' .dropQueues).1
+    let pR := planPr sR pr .final [] []
+    s.WF ∧ rec_QTip s.g s.remote ∧ rec_QEmpty s pr ∧ s.useQueue = true ∧ alreadyQueued s pr = false ∧
+    s.remote.get (.other pr.src) = some 3 ∧ p.outcome = "Queued" ∧ p.ops.length = 4 ∧ pR.outcome = "Queued" ∧
+    (s'.remote.get (.qw 1 RecDemo.d43 "feature/y") = some 6 ∧ s'.remote.get (.qw 1 RecDemo.d51 "feature/y") = none ∧
+      s'.remote.get (.q RecDemo.d51) = some 7) ∧
+    allQRefs sR.remote = [] ∧
+    (applyOps (s.after p).g noRej (s.after p).remote (planQueues (s.after p) [1]).ops).get (.dest RecDemo.d51) = some 7 ∧
+    (applyOps (sR.after pR).g noRej (sR.after pR).remote (planQueues (sR.after pR) [1]).ops).get (.dest RecDemo.d51) = some 9 ∧
+    [0, 1, 2, 3, 4].all (fun a => pR.g.le a 9 == p.g.le a 7) = true ∧
+    (observableAt s p (fun _ _ => false) 4 = (s.after p).remote) :=
+  ⟨RecDemo.q2_WF, RecDemo.q2_QTip, RecDemo.q2_QEmpty, by decide, by decide, by decide, by decide, by decide, by decide,
+   by decide, by decide, by decide, by decide, by decide, by decide⟩
 
 end BertE.C02
